@@ -51,15 +51,23 @@ struct MoodySink {
     max: usize,
     calls: usize,
     moody: bool,
+    /// more bytes than this means the writer is running away (restarting a part for ever): fail instead of hanging
+    limit: usize,
 }
 impl MoodySink {
     fn new(max: usize, moody: bool) -> MoodySink {
-        MoodySink { out: Vec::new(), max, calls: 0, moody }
+        MoodySink { out: Vec::new(), max, calls: 0, moody, limit: 1 << 20 }
+    }
+    fn limited(max: usize, moody: bool, limit: usize) -> MoodySink {
+        MoodySink { out: Vec::new(), max, calls: 0, moody, limit }
     }
 }
 impl std::io::Write for MoodySink {
     fn write(&mut self, buf: &[u8]) -> std::io::Result<usize> {
         self.calls += 1;
+        if self.out.len() > self.limit {
+            return Err(std::io::Error::other("runaway writer: far more bytes than any frame of this run"));
+        }
         if self.moody && self.calls % 3 == 0 {
             return Err(std::io::Error::from(std::io::ErrorKind::Interrupted));
         }
@@ -74,6 +82,10 @@ impl std::io::Write for MoodySink {
 impl tokio::io::AsyncWrite for MoodySink {
     fn poll_write(mut self: std::pin::Pin<&mut Self>, cx: &mut std::task::Context<'_>, buf: &[u8]) -> std::task::Poll<std::io::Result<usize>> {
         self.calls += 1;
+        if self.out.len() > self.limit {
+            // a writer that restarts a part for ever must not hang the harness
+            return std::task::Poll::Ready(Err(std::io::Error::other("runaway writer: far more bytes than any frame of this run")));
+        }
         if self.moody && self.calls % 2 == 0 {
             cx.waker().wake_by_ref();
             return std::task::Poll::Pending;
@@ -244,7 +256,7 @@ fn exec(out: &mut Out, world: &mut World, line: &str, rtm: &tokio::runtime::Runt
             let _ = repe::write_message_streaming(&mut sw, h, &q, b.len() as u64, |w: &mut ShortWriter| std::io::Write::write_all(w, &b));
             let r5short = std::mem::take(&mut sw.out);
             // the same routes into sinks that interrupt / stay pending between fragments
-            let mut ms = MoodySink::new(wmax, moody);
+            let mut ms = MoodySink::limited(wmax, moody, 2 * (48 + q.len() + b.len()) + 4096);
             let e1 = m.write_to(&mut ms).is_err();
             let r1m = std::mem::take(&mut ms.out);
             let e3 = repe::write_message(&mut ms, &m).is_err();
@@ -957,7 +969,16 @@ fn gen_parse_inputs(r: &mut Rng, n: usize) -> Vec<Vec<u8>> {
         let valid = {
             let q = { let l = r.below(20) as usize; r.bytes(l) };
             let b = { let l = r.below(40) as usize; r.bytes(l) };
-            RawFrame::request(r.boundary(64), r.chance(1, 4), r.boundary(16) as u16, &q, r.boundary(16) as u16, &b)
+            let mut f = RawFrame::request(r.boundary(64), r.chance(1, 4), r.boundary(16) as u16, &q, r.boundary(16) as u16, &b);
+            // the fields no parser may care about take their full ranges here too (a third of the inputs keep the
+            // ordinary values so that the ordinary paths stay densely covered)
+            if r.chance(2, 3) {
+                f.h.version = r.boundary(8) as u8;
+                f.h.notify = r.boundary(8) as u8;
+                f.h.reserved = r.boundary(32) as u32;
+                f.h.ec = r.boundary(32) as u32;
+            }
+            f
         };
         let mut bs = valid.to_vec();
         match i % 8 {
@@ -1485,6 +1506,10 @@ fn main() {
     let mut world: Option<NetWorld> = None;
     let mut world_state = World::new();
     for line in ops {
+        if out.oracle_failures > 60 {
+            // a broken tree: enough failing inputs have been recorded, do not grind through the rest
+            break;
+        }
         out.begin(&line);
         if line.starts_with("net ") {
             let w = world.get_or_insert_with(net_world);
